@@ -147,6 +147,12 @@ def u_eq_hash(I):
     def asb(r):
         return z3.BoolVal(r) if isinstance(r, bool) else r
     check_outcome(I, out, raises={}, returns=lambda r: [('equal exactly when the canonical names are equal (%s)' % form, asb(r) == (n1 == n2))])
+    try:
+        rn = I.compare(ast.NotEq, b, a) if form == 'string-left' else I.compare(ast.NotEq, a, b)
+        outn = Outcome('return', rn)
+    except PyExc as e:
+        outn = Outcome('raise', e.obj)
+    check_outcome(I, outn, raises={}, returns=lambda r: [('!= is the negation of == (%s)' % form, asb(r) == (n1 != n2))])
     h1 = I.world.builtins['hash'].fn(I, [a], {})
     ctx.oblige('hash of a group is the hash of its canonical name (interchangeable with the string in dictionaries)',
                z3_of(h1) == z3.Function('HashStr', SS, IS)(n1))
@@ -422,7 +428,7 @@ def u_lemma_roundtrip(I):
 def standin_groups(tier, seed):
     import itertools, random
     from pgradd.GroupAdd.Group import Group, Descriptor
-    names = ['C', 'H', 'C[d]', 'C[.]', 'CO', 'Pt', 'N[A]', 'C2', 'x y']
+    names = ['C', 'H', 'C[d]', 'C[.]', 'CO', 'Co', 'Pt', 'N[A]', 'C2', 'x y']
     centres = ['C', 'C[d]', 'Pt', 'CO']
     maxk = 3 if tier == 'quick' else 4
     viol, n, distinct = [], 0, set()
